@@ -151,6 +151,7 @@ class Ctx(object):
         self.fresh_counter = {}
         self.inputs = {}         # name -> z3 const (reported in counterexamples)
         self.choices = {}        # name -> concrete choice taken on this path
+        self.run_cover = []      # cover labels reached on this path (replay-alignment guard)
         self.char_dom = {}       # symbolic character name -> interval set still possible on this path
         self._in_summary = False
         self.nonlinear = False
@@ -430,6 +431,7 @@ class Ctx(object):
     # ---- obligations -----------------------------------------------------------------------
     def cover(self, label):
         self.stats.cover[label] = self.stats.cover.get(label, 0) + 1
+        self.run_cover.append(label)
 
     def _label(self, label, i):
         self.stats.labels.setdefault(label, [0, 0, 0])[i] += 1
@@ -476,7 +478,8 @@ class Ctx(object):
                     vals[name] = z3val(m.eval(const, model_completion=True))
                 vals.update(self.choices)
                 self.violations.append(Violation(label, vals, list(self.decisions),
-                                                 detail or str(neg)[:600], dict(self.notes)))
+                                                 detail or str(neg)[:600],
+                                                 dict(self.notes, _covered=list(self.run_cover))))
             return False
         self.stats.obl_unknown += 1
         self._label(label, 2)
@@ -622,11 +625,18 @@ class Ctx(object):
         return self.check(False, label, detail)
 
     # ---- running ---------------------------------------------------------------------------
+    def violations_this_run(self):
+        return len(self.violations) - self._viol_at_start
+
     def run_one(self, scenario, prefix):
         self.reset_run(prefix)
+        self._viol_at_start = len(self.violations)
         try:
             scenario(self)
             self.stats.paths += 1
+            if WITNESS_MODE and not self.violations_this_run():
+                # replay-alignment sampling: a model of this COMPLETED path, reported like a violation
+                self.check(False, "path-witness", "completed path", final=False)
         except PathAbort as pa:
             self.stats.paths_aborted += 1
             if pa.reason == "infeasible":
@@ -665,6 +675,7 @@ class Ctx(object):
 # ---------------------------------------------------------------------------------------------
 # current context (proxies look it up)
 _CUR = None
+WITNESS_MODE = False     # set (before forking the workers) to collect one input model per completed path
 
 
 def cur():
